@@ -3,5 +3,5 @@
 # checks (tools/eval_silent.sh) and prints those that raise an alarm (= false alarms).
 HERE="$(cd "$(dirname "${BASH_SOURCE[0]}")/.." && pwd)"
 F=${1:-}
-ls -d "$HERE"/silent/*/ | grep "$F" | xargs -P ${P:-6} -I{} sh -c 'id=$(basename {}); '"$HERE"'/tools/eval_silent.sh {}patch.diff $id 2>/dev/null' | grep -v '"alarms":{}' 
+ls -d "$HERE"/silent/*/ | grep "$F" | xargs -P ${P:-6} -I{} sh -c 'id=$(basename {}); p={}patch.diff; [ -f {}patch.head.diff ] && p={}patch.head.diff; '"$HERE"'/tools/eval_silent.sh $p $id 2>/dev/null' | grep -v '"alarms":{}' 
 echo "done"
